@@ -910,6 +910,7 @@ def wf (env : List (List (List Char))) : PyVal → Bool
   | .list xs => wfList env xs
   | .tuple xs => wfList env xs
   | .dict xs => wfList env xs
+  | .applied .. => false
   | _ => true
 
 def wfList (env : List (List (List Char))) : List PyVal → Bool
@@ -1055,6 +1056,7 @@ theorem build_toAst (tbl : List String) (env : List (List (List Char)))
   | .dict xs, hw, hs => by
     have := buildList_toAst tbl env hbase xs (by simpa [wf] using hw) (by simpa [needsSub] using hs)
     simp [toAst, build, recog_ok (hbase "Dict" (by decide)), this, bind, Except.bind, pure, Except.pure]
+  | .applied .., hw, _ => by simp [wf] at hw
   | .obj p, hw, _ => by
     cases p with
     | nil => simp [wf] at hw
